@@ -66,7 +66,7 @@ _TR = {}
 def base_tr():
     if 'o' not in _TR:
         cells = {'C1': '=ROUND(A1,B1)', 'D1': '=ROUNDUP(A1,B1)', 'E1': '=ROUNDDOWN(A1,B1)', 'F1': '=A1%',
-                 'G1': '=ROUNDUP(A1)', 'H1': '=ROUNDDOWN(A1)'}
+                 'G1': '=ROUNDUP(A1)', 'H1': '=ROUNDDOWN(A1)', 'I1': '=A1%+B1', 'J1': '=A1%-B1', 'K1': '=B1+A1%'}
         o = wbk.translate_model({'sheets': [{'title': 'S', 'cells': cells}]})
         if o[0] != 'value':
             raise env.HarnessError(f'C16 base workbook does not translate: {o}')
@@ -74,7 +74,7 @@ def base_tr():
     return _TR['o']
 
 
-COL = {'ROUND': 'C', 'ROUNDUP': 'D', 'ROUNDDOWN': 'E', 'PCT': 'F', 'ROUNDUP1': 'G', 'ROUNDDOWN1': 'H'}
+COL = {'ROUND': 'C', 'ROUNDUP': 'D', 'ROUNDDOWN': 'E', 'PCT': 'F', 'ROUNDUP1': 'G', 'ROUNDDOWN1': 'H', 'PCT+N': 'I', 'PCT-N': 'J', 'N+PCT': 'K'}
 
 
 def eval_override(xtext, n, fns, ex=None):
@@ -90,6 +90,12 @@ def check_value(fn, xtext, n, via, o):
     case = {'fn': fn, 'x': xtext, 'n': n, 'via': via}
     if fn == 'PCT':
         exp = oracle_pct(xtext)
+    elif fn in ('PCT+N', 'PCT-N', 'N+PCT'):
+        # a percent followed by a binary + or - is the percentage plus / minus the next operand
+        pv = oracle_pct(xtext)
+        exp = pv - n if fn == 'PCT-N' else pv + n
+        if o[0] == 'value' and type(o[1]) in (int, float) and abs(o[1] - exp) <= 1e-12 * max(1.0, abs(exp)):
+            return None
     else:
         exp = oracle(fn[:-1] if fn.endswith('1') else fn, xtext, n)
     if o[0] == 'timeout':
@@ -126,8 +132,8 @@ def nontrivial(fn, xtext, n):
 
 def run_case(case):
     fn, x, n, via = case['fn'], case['x'], case['n'], case.get('via', 'override')
-    if via == 'override':
-        o = eval_override(x, n, [fn])[fn]
+    if via in ('override', 'override-float'):
+        o = eval_override(x, float(n) if via == 'override-float' else n, [fn])[fn]
     else:
         o = eval_cells([(fn, x, n)], via)[0]
     f = check_value(fn, x, n, via, o)
@@ -195,7 +201,7 @@ def run_shard(spec, rec):
                 if sign and Decimal(xt) == 0:
                     continue
                 for n in DIGITS:
-                    outs = eval_override(x, n, FUNCS + (['PCT', 'ROUNDUP1', 'ROUNDDOWN1'] if n == 0 else []), ex_x)
+                    outs = eval_override(x, n, FUNCS + (['PCT', 'ROUNDUP1', 'ROUNDDOWN1'] if n == 0 else []) + (['PCT+N', 'PCT-N', 'N+PCT'] if n in (-3, 0, 2) else []), ex_x)
                     for fn, o in outs.items():
                         evals += 1
                         if nontrivial(fn, x, n):
@@ -243,9 +249,11 @@ def run_shard(spec, rec):
 
         def body(p):
             x, n, fn = p
-            o = eval_override(x, n, [fn])[fn]
-            rec.case({'fn': fn, 'x': x, 'n': n, 'via': 'override'}, nontrivial(fn, x, n), tags(fn, x, n) + ['via:override-drawn'])
-            f = check_value(fn, x, n, 'override', o)
+            # the digit count may arrive as a whole float (2.0) as well as an int
+            via = 'override-float' if (len(x) + n) % 3 == 0 else 'override'
+            o = eval_override(x, float(n) if via == 'override-float' else n, [fn])[fn]
+            rec.case({'fn': fn, 'x': x, 'n': n, 'via': via}, nontrivial(fn, x, n), tags(fn, x, n) + ['via:' + via + '-drawn'])
+            f = check_value(fn, x, n, via, o)
             if f:
                 rec.fail(**f)
         hyp_run(pt, body, spec['examples'], ('c16', spec['shard']), rec)
